@@ -437,6 +437,15 @@ class GenSource:
 
     def set_compound(self, w):
         rng = self.rng
+        if rng.random() < 0.3:
+            # the value is another xobject of the same type (any buffer); for compounds that hold
+            # references this re-binds them field by field: aliased in the same buffer, duplicated across
+            got = self._pick_path(w, lambda s, t, n, p: s[t]["k"] == "struct" and "*" not in p)
+            if got is not None:
+                o, p, t, n = got
+                cands = [x for x in w.live_objs(t) if x.k != o.k and _shape_compatible(w.schema, t, n, x.node) and _same_caps(w.schema, t, n, x.node)]
+                if cands:
+                    return {"op": "set", "obj": o.k, "path": p, "value": {"obj": rng.choice(cands).k}, "via": self._via(o)}
         got = self._pick_path(w, lambda s, t, n, p: s[t]["k"] in ("struct", "array") and not typegen.has_refs(s, t))
         if got is None:
             return None
@@ -969,13 +978,20 @@ class Step:
             raise Skip()
         if node is None or parent is None or isinstance(parent, (M.RefLeaf, M.URefLeaf)):
             raise Skip()
-        mat = M.Materialiser(w.schema, w.classes, w.objs, None)
+        mat = M.Materialiser(w.schema, w.classes, w.objs, o.bufid)
         try:
             py, vnode = mat.mat(t, op["value"])
         except KeyError:
             raise Skip()
         if not _shape_compatible(w.schema, t, node, vnode):
             raise Skip()
+        if isinstance(op["value"], dict) and "obj" in op["value"]:
+            if op["value"]["obj"] == o.k or not _same_caps(w.schema, t, node, vnode):
+                raise Skip()
+            if typegen.has_refs(w.schema, t):
+                self.res.probe("assignment_of_reference_bearing_compound")
+            if mat.foreign or w.objs[op["value"]["obj"]].buf is not o.buf:
+                self.res.fault("foreign_operand")
         start = o.handle() if op.get("via") == "handle" and o.hnd is not None else o.view()
         self.res.features.add(f"set:{typegen.features(w.schema, t)}:{op.get('via')}:{'xref' if '*' in path else 'direct'}")
         self._allow_path(o, path)
@@ -1381,6 +1397,22 @@ def _placek(p):
     if "ctx" in p:
         return "ctx"
     return p["how"]
+
+
+def _same_caps(schema, t, node, vnode):
+    """String capacities equal everywhere (a byte copy of equal-size values carries the source's
+    capacities; equal capacities make both paths of the library agree with the in-place model)."""
+    ty = schema[t]
+    k = ty["k"]
+    if k == "str":
+        return node.cap is not None and node.cap == vnode.cap
+    if k == "struct":
+        return all(_same_caps(schema, f[1], node.f[f[0]], vnode.f[f[0]]) for f in ty["fields"])
+    if k == "array":
+        if schema[ty["item"]]["k"] == "sc":
+            return True
+        return len(node.items) == len(vnode.items) and all(_same_caps(schema, ty["item"], a, b) for a, b in zip(node.items, vnode.items))
+    return True
 
 
 def _shape_compatible(schema, t, node, vnode):
